@@ -18,7 +18,7 @@ Strm = collections.namedtuple('Strm', 'state circ remapped')  # state: NEW NEWRE
 CIDS = (1, 2)
 SIDS = (1, 2)
 # hop relay numbers per circuit id; circuit 2 runs through a relay that is not in the consensus, '=' name form
-PATHS = {1: [(1, False), (2, False), (3, False)], 2: [(1, True), (9, False), (3, True)]}
+PATHS = {1: [(1, False), (2, False), (3, False), (9, False)], 2: [(1, True), (9, False), (3, True)]}      # (circuit 1's 4th hop: only when it is extended after having been built)
 PURPOSE = {1: 'GENERAL', 2: 'HS_CLIENT_REND'}
 ALT_PURPOSE = {1: 'HS_SERVICE_REND', 2: 'GENERAL'}       # after the circuit was cannibalised
 
@@ -77,12 +77,23 @@ def tgt(sid, remapped=False):
     return '%s:%d' % (h, p)
 
 
-def enabled(state, maxhops=3):
+def enabled(state, maxhops=3, cannibal=False):
     """-> list of (label, event_name, line, next_state)"""
     circs, strms = state
     out = []
     for c in CIDS:
         cur = circs.get(c)
+        if cannibal and c == 1 and cur is not None and cur.purp == 1 and len(PATHS[c]) > maxhops:
+            # a cannibalised circuit gets one more hop: BUILT, then EXTENDED with the longer path, then BUILT again
+            if cur.state == 'BUILT' and cur.hops == maxhops and not any(v.circ == c for v in strms.values()):
+                # (Tor cannibalises idle circuits only: no stream is on it)
+                n = dict(circs)
+                n[c] = Circ('EXTENDED', maxhops + 1, 1)
+                out.append(('C%d-EXTENDED-after-built' % c, 'CIRC', circ_line(c, 'EXTENDED', maxhops + 1, purp=1), (n, strms)))
+            if cur.state == 'EXTENDED' and cur.hops == maxhops + 1:
+                n = dict(circs)
+                n[c] = Circ('BUILT', maxhops + 1, 1)
+                out.append(('C%d-BUILT-again' % c, 'CIRC', circ_line(c, 'BUILT', maxhops + 1, purp=1), (n, strms)))
         if cur is None:
             n = dict(circs)
             n[c] = Circ('LAUNCHED', 0)
@@ -178,14 +189,14 @@ def canon(state):
     return (tuple(sorted(circs.items())), tuple(sorted(strms.items())))
 
 
-def reachable(max_states=None):
+def reachable(max_states=None, cannibal=False):
     """all model states reachable from the initial one, with one shortest event path each"""
     seen = {canon(initial()): (initial(), [])}
     frontier = collections.deque([initial()])
     while frontier:
         st = frontier.popleft()
         path = seen[canon(st)][1]
-        for label, ev, line, nxt in enabled(st):
+        for label, ev, line, nxt in enabled(st, cannibal=cannibal):
             k = canon(nxt)
             if k not in seen:
                 seen[k] = (nxt, path + [(label, ev, line)])
